@@ -81,7 +81,7 @@ CHECKS = {
              'the solver proves (a) the pool denotes the same byte array as the sequential store chain (for an arbitrary probe address, no two cells overlap) and (b) E1(load) equals the load '
              'on the store chain - for all offsets of the path, all stored values, all initial memory, base constant or symbolic register.',
         note='Trusted: z3 (arrays + bit-vectors), SInt proxy, E1. Bounds: widths 8/16/32, first store at base+8, other offsets in a window of 12-23 bytes; '
-             'programs and rep clauses: see DESIGN (part P).',
+             'programs: seed-drawn straight-line sequences of 1-12 instructions vs the sequential composition under E1; rep with concrete ecx 0..4; repe/repne cmps/scas with symbolic memory through the real emulator (E2), final ecx/esi/edi/zf == the architectural loop.',
         design='5/C07', engine='E2+E1'),
     'C12': dict(
         level='model_checking',
@@ -140,7 +140,7 @@ CHECKS = {
         level='model_checking',
         technique='E1 dependency queries (z3): for each decoded instruction, "two pre-states differing in one resource give different reference results" must be unsat for every resource outside the reported read set; writes compared with the reference',
         text='For every integer-core instruction (reference = vf/x86spec/sem.py) each register, flag and memory operand on which the reference result depends (SMT dependency query over all states) must be in get_instr_expr-derived read set; '
-             'every resource the reference can modify must be in the write set ("exists a state with post != pre" unsat otherwise). Partial claim: the x87/MMX/SSE part of the property is not built.',
+             'every resource the reference can modify must be in the write set ("exists a state with post != pre" unsat otherwise). MMX/SSE instructions lifted through the uninterpreted MMX operator: operand inclusion on every decoder path (source operand, address registers, destination, flags of comis/ucomis/ptest) - structural. Partial claim: x87 is not covered.',
         note='Trusted: z3, E1, the validated reference semantics. Bounds: one instruction, flat memory; over-approximation is accepted; self-dependency of conditionally preserved resources excluded.',
         design='5/C08', engine='E2+E1'),
     'C11': dict(
@@ -162,7 +162,7 @@ CHECKS = {
         technique='symbolic execution of the real decoder, of the real Intel and AT&T renderers in render mode (symbolic numbers as placeholder numerals) and of the real matching parsers; membership of the original bytes among the candidates as an SMT validity query (z3)',
         text='Partial claim (the miasmX-parser clause). On every path of the symbolic decoder exploration both renderings of the decoded instruction are produced by the real printer with every immediate / displacement symbolic, '
              'each is fed to the matching real parser (asm / asm_att) and the original bytes must be among the candidates for ALL byte values of the path - so operand order, size suffixes, sigils, memory layout and the fsub/fdiv reversal are exercised. '
-             'A miss is reported only for canonical encodings: GNU as, given the concrete rendering at the witness, yields exactly the original bytes. NOT claimed: acceptance of every rendering by GNU as (it is only the canonicity filter).',
+             'A miss is reported only for canonical encodings: GNU as, given the concrete rendering at the witness, yields exactly the original bytes. Arbiter level (labelled): at one witness per operand shape, for instructions a compiler emits, GNU as must accept the rendering in the matching syntax mode and objdump must read its encoding as the same instruction as the original bytes.',
         note='Trusted: z3, proxies, render mode (core.render_number; digit-string <-> integer conversion not modelled), GNU as 2.40 as canonicity filter. Bounds: thin ModRM slice, prefix sets (), (66) [+ (67) thorough], quick samples rows by seed.',
         design='5/C09 + 9', engine='E2'),
     'C10': dict(
@@ -170,7 +170,7 @@ CHECKS = {
         technique='symbolic execution of the real x86 decoder on symbolic byte strings (z3): exhaustive path sets per opcode row; witness replay for rendering/truncation/stream clauses',
         text='Decoder: for the rows of the live opcode trie x prefix sets, prefixes||opcode||11 symbolic bytes run through the real x86mnemo.dis; on every path the outcome is None or an instruction, '
              'no exception escapes, 0 < l <= len, no byte at index >= l is read (SBytes read monitor), the reported raw bytes equal the consumed input (SMT). At path witnesses (concrete, labelled so): both renderings, '
-             'every strict truncation is absent, stream offsets 0/1/5. Assembler totality: see DESIGN (token sequences), claimed only where built.',
+             'every strict truncation is absent, stream offsets 0/1/5. Assembler totality: lines generated from the lexical alphabet (mnemonics, registers, size keywords, punctuation, numbers, names; <= 3 free tokens next to fixed operands) go through the real public asm() with every number symbolic: a list or the documented ValueError on every path.',
         note='Trusted: z3, proxies. Bounds: 11 symbolic bytes, <= 2 prefixes per set, SIB restricted to 8 representatives; rendering and truncation at witnesses only.',
         design='5/C10', engine='E2'),
 }
@@ -178,7 +178,7 @@ CHECKS = {
 NOT_APPLICABLE = {}
 
 NOT_YET = {}   # id -> reason, for properties whose check is not built yet
-HOLD = {'C10', 'C01', 'C02', 'C03', 'C04', 'C08', 'C11', 'C19', 'C09'}   # built, but known findings not yet adopted: not claimed until a clean run is committed
+HOLD = set()   # built, but known findings not yet adopted: not claimed until a clean run is committed
 
 
 def main():
